@@ -10,6 +10,9 @@ from .C16 import factors, signed_factors, terms
 
 
 def run(ctx):
+    from .C11 import private_copy
+
+    private_copy(ctx, rule="R17.4")  # without a private model copy an in-place anisotropy change is invisible to update(): the mode mesh goes stale
     prog = ctx.prog
     ci = prog.cls(GEN, "Fourier")
     st = state.coherence(ctx, "R17.1", ci, FOURIER_EDGES, type_assumptions={"model": "CovModel"}, rel=GEN,
